@@ -189,6 +189,7 @@ def install(E):
         a = lift(s, a, bits); b = lift(s, b, bits)
         tn = tainted(a, b)
         if m == 'havoc':
+            st.havoc_used = True
             return s.newbool('fcmp', taint='havoc')
         if m == 'exact':
             un = z3.Or(z3.fpIsNaN(a.t), z3.fpIsNaN(b.t))
